@@ -19,6 +19,8 @@ func checkC17(e *Env) {
 	e.R.Explanation = "Decided (structural necessary conditions of C17): Validate() is a gate of CertChain.Write (before the first destination write) and of ReadCertChain; Validate itself requires a non-empty chain and, specialised on i==0 / i!=0, OCSPResponse != nil / == nil for every element with no early exit; ReadCertChain requires count >= 2, magic string equality, every element decoded through DecodeAugmentedCertificateFrom (which requires a 'cert' key and a successful x509.ParseCertificate) and appended; the written array header is len+1 and every element is encoded; the key sets {cert, ocsp, sct} of writer and reader agree; SerializeSCTList: per-element and total <= 0xffff gates dominate the two uint16 narrowings, the total counts len+2 per element, every element is written with its length; every destination write in Write/EncodeTo propagates its error (E3). " +
 		"Not decided: DER equality after the round trip, X.509 parsing."
 	e.R.RuleText = "E2 must-pass-through; specialised CFG on the loop index; for-all loop rule; E7 key-table agreement; narrowing-conversion guard rule; E3 on the cert-chain writers"
+	// ERRUSE: no error of a data-fallible module call is lost on the way (shared rule, erruse.go)
+	moduleErrorsConsumed(e, erruseEntries, 1, "signedexchange/certurl.")
 
 	w := e.fn("signedexchange/certurl.(CertChain).Write")
 	o := gate.Outcome{Kind: gate.ErrNil, Idx: 0}
